@@ -173,15 +173,6 @@ def run(cfg):
         dsym_p[a + '.y'] = b + '.y'
         dsym_p[a + '.M'] = b + '.M'
     pairs.append(Pair('compareTransitionToMatchFuzzy', '_compare_transition_to_match_fuzzy', csym=dsym_c, psym=dsym_p, min_orderings=4))
-    # (e) compareTransitionToMatch
-    esym_c = {'match.startDateTime': 'MS', 'match.startDateTime.suffix': 'MS.f', 'match.untilDateTime': 'MU', 'match.untilDateTime.suffix': 'MU.f',
-              'MS.suffix': 'MS.f', 'MU.suffix': 'MU.f',
-              'transition.transitionTime': 'TT', 'transition.transitionTimeS': 'TTS', 'transition.transitionTimeU': 'TTU'}
-    esym_p = {'match.startDateTime': 'MS', 'match.startDateTime.f': 'MS.f', 'match.untilDateTime': 'MU', 'match.untilDateTime.f': 'MU.f',
-              'transition.transitionTime': 'TT', 'transition.transitionTimeS': 'TTS', 'transition.transitionTimeU': 'TTU'}
-    pairs.append(Pair('compareTransitionToMatch', '_compare_transition_to_match', csym=esym_c, psym=esym_p,
-                      constraint=suffix_constraint(['MS.f', 'MU.f']), min_orderings=500,
-                      facts={U('MS.f'): (min(sufset), max(sufset)), U('MU.f'): (min(sufset), max(sufset))}))
     for pair in pairs:
         cf, sc, pf, sp = summarise_pair(lib, zs, pair, sv)
         c = '%s~%s' % (pair.cname, pair.pname)
@@ -196,6 +187,7 @@ def run(cfg):
             R.violation('R1', c, cf.loc, 'the two implementations differ when %s: C++ -> %s, Python -> %s' % (d[0], _o(d[1]), _o(d[2])),
                         detail=['%d differing orderings of %d' % (len(diffs), n), 'Python side: %s' % pf.loc])
     process_pair(R, lib, zs, sv)
+    transition_match_pair(R, lib, zs, sv)
     expand_pair(R, lib, zs, sv, suffix_constraint)
     match_pair(R, lib, zs, sv)
     loop_rules(R, lib, zs)
@@ -982,29 +974,133 @@ def _o(o):
 
 # -- (h) processActiveTransition / _process_transition ---------------------------------------------------------------
 
+def _interp(lib):
+    """what the bilateral interpretations share: the C++ module, a constructor for abstract DateTuples / Transitions on
+    either side, the Python evaluator"""
+    from .aeval import CxxModule
+    from .pyeval import PyEval
+    return CxxModule(lib, ['ace_time::']), PyEval(lib.cfg)
+
+
 def process_pair(R, lib, zs, sv):
-    pair = Pair('processActiveTransition', 'ActiveSelectorInPlace._process_transition',
-                cfn={XP + 'compareTransitionToMatch': 'CMPTM'}, pfn={'_compare_transition_to_match': 'CMPTM'},
-                psym={'transition.isActive': 'transition.active', 'prior.isActive': 'prior.active'})
-    cf, sc, pf, sp = summarise_pair(lib, zs, pair, sv)
-    c = '%s~%s' % (pair.cname, pair.pname)
-
-    def pc(path):
-        e = effects_final(path[3])
-        newprior = e.pop('prior', Poly.atom(('sym', 'prior')).key())
-        return ('done', newprior, tuple(sorted(e.items(), key=repr)))
-
-    def pp(path):
-        e = effects_final(path[3])
-        return ('done', path[2], tuple(sorted(e.items(), key=repr)))
-    n, diffs = compare_pair(sc, sp, pc, pp, None, None)
-    R.instance('R1', c, cf.loc, '%d orderings' % n)
-    if n < 8:
-        raise AnalysisError('%s: only %d orderings compared for %s' % (cf.loc, n, c))
+    """processActiveTransition (C++) and ActiveSelectorInPlace._process_transition (Python) are interpreted (E-SEQ) on
+    every combination of the comparison status {-1, 0, 1, 2} (compareTransitionToMatch is replaced by a stub that
+    answers it), a prior that is absent / earlier / at the same time / later than the transition, and both initial
+    values of the active flags.  Compared: the transition's flag, the prior's flag and which object is the prior
+    afterwards."""
+    from .aeval import AEval, AObj, CxxModule, Raised, Ref, cxx_object
+    from .pyeval import PyEval, PObj, Raised as PRaised
+    NS = 'ace_time::extended::'
+    cf = lib.fn(XP + 'processActiveTransition')
+    pf = zs.fn('ActiveSelectorInPlace._process_transition')
+    c = 'processActiveTransition~ActiveSelectorInPlace._process_transition'
+    mod = CxxModule(lib, ['ace_time::'])
+    pev = PyEval(R.cfg)
+    DT = pev.global_name(zs, 'DateTuple', zs.rel)
+    n = 0
+    diffs = []
+    for status in (-1, 0, 1, 2):
+        for prior_case in ('none', 'earlier', 'same', 'later'):
+            for flag0 in (False, True):
+                day = {'none': None, 'earlier': 5, 'same': 10, 'later': 15}[prior_case]
+                # C++
+                tr = cxx_object(lib, NS + 'Transition')
+                tr.attrs['transitionTime'].attrs.update({'yearTiny': 1, 'month': 3, 'day': 10, 'minutes': 120, 'suffix': sv['w']})
+                tr.attrs['active'] = flag0
+                pr = None
+                if day is not None:
+                    pr = cxx_object(lib, NS + 'Transition')
+                    pr.attrs['transitionTime'].attrs.update({'yearTiny': 1, 'month': 3, 'day': day, 'minutes': 120, 'suffix': sv['w']})
+                    pr.attrs['active'] = True
+                box = [pr]
+                match = cxx_object(lib, NS + 'ZoneMatch')
+                try:
+                    ev = AEval(module=mod, intrinsics={XP + 'compareTransitionToMatch': (lambda e_, r_, a_, s_=status: s_)}, typed=True, max_steps=20000)
+                    args = []
+                    for (pn_, pt_) in cf.params:
+                        args.append(match if 'ZoneMatch' in (pt_ or '') else Ref(box, 0) if (pt_ or '').count('*') == 2 else tr)
+                    ev.call_function(cf.name, args, chosen=CxxModule._Fn(cf))
+                    oc = (bool(tr.attrs['active']), None if pr is None else bool(pr.attrs['active']),
+                          'transition' if box[0] is tr else 'prior' if (box[0] is pr and pr is not None) else 'none' if box[0] is None else '?')
+                except Raised as x_:
+                    oc = ('raises', x_.what)
+                # Python
+                ptr = PObj(zs, 'Transition', {'transitionTime': pev.apply(DT, [], dict(y=2001, M=3, d=10, ss=7200, f='w')), 'isActive': flag0})
+                ppr = None
+                if day is not None:
+                    ppr = PObj(zs, 'Transition', {'transitionTime': pev.apply(DT, [], dict(y=2001, M=3, d=day, ss=7200, f='w')), 'isActive': True})
+                pev._modenv[(zs.rel, '_compare_transition_to_match')] = (lambda a_, b_, s_=status: s_)
+                try:
+                    vals = {'match': PObj(zs, 'ZoneMatch', {}), 'transition': ptr, 'prior': ppr}
+                    if sorted(pf.params) != sorted(vals):
+                        raise AnalysisError('%s: parameters %s are not (match, transition, prior)' % (pf.loc, pf.params))
+                    r = pev.call(zs, pf.name, [vals[x] for x in pf.params])
+                    op = (bool(ptr.attrs['isActive']), None if ppr is None else bool(ppr.attrs['isActive']),
+                          'transition' if r is ptr else 'prior' if (r is ppr and ppr is not None) else 'none' if r is None else '?')
+                except PRaised as x_:
+                    op = ('raises', x_.what)
+                finally:
+                    pev._modenv.pop((zs.rel, '_compare_transition_to_match'), None)
+                n += 1
+                if oc != op:
+                    diffs.append(('status %d, prior %s, active flag initially %s' % (status, prior_case, flag0), oc, op))
+    R.instance('R1', c, cf.loc, '%d interpreted cases' % n)
     if diffs:
         d = diffs[0]
-        R.violation('R1', c, cf.loc, 'the two implementations differ when %s: C++ -> %s, Python -> %s' % (d[0], _o(d[1]), _o(d[2])),
-                    detail=['%d differing orderings of %d' % (len(diffs), n)])
+        R.violation('R1', c, cf.loc, 'the two implementations differ when %s: C++ -> (transition active, prior active, prior is) = %s, Python -> %s' % (d[0], d[1], d[2]),
+                    detail=['%d differing cases of %d' % (len(diffs), n), 'Python side: %s' % pf.loc])
+
+
+def transition_match_pair(R, lib, zs, sv):
+    """compareTransitionToMatch (C++) and _compare_transition_to_match (Python), interpreted (E-SEQ) on a match [start 10th,
+    until 20th) whose bounds carry every pair of suffixes w/s/u, and a transition whose w, s and u times range
+    independently over before / at the start / inside / at the end / after: 1125 cases, the four results compared."""
+    from .aeval import AEval, CxxModule, Raised, cxx_object
+    from .pyeval import PyEval, PObj, Raised as PRaised
+    NS = 'ace_time::extended::'
+    cf = lib.fn(XP + 'compareTransitionToMatch')
+    pf = zs.fn('_compare_transition_to_match')
+    c = 'compareTransitionToMatch~_compare_transition_to_match'
+    mod = CxxModule(lib, ['ace_time::'])
+    pev = PyEval(R.cfg)
+    DT = pev.global_name(zs, 'DateTuple', zs.rel)
+    days = (5, 10, 15, 20, 25)
+    n = 0
+    diffs = []
+    import itertools
+    for fs, fu in itertools.product('wsu', repeat=2):
+        for dw, ds, du in itertools.product(days, repeat=3):
+            tr = cxx_object(lib, NS + 'Transition')
+            for fld, d_, f_ in (('transitionTime', dw, 'w'), ('transitionTimeS', ds, 's'), ('transitionTimeU', du, 'u')):
+                tr.attrs[fld].attrs.update({'yearTiny': 1, 'month': 3, 'day': d_, 'minutes': 120, 'suffix': sv[f_]})
+            m = cxx_object(lib, NS + 'ZoneMatch')
+            m.attrs['startDateTime'].attrs.update({'yearTiny': 1, 'month': 3, 'day': 10, 'minutes': 120, 'suffix': sv[fs]})
+            m.attrs['untilDateTime'].attrs.update({'yearTiny': 1, 'month': 3, 'day': 20, 'minutes': 120, 'suffix': sv[fu]})
+            try:
+                ev = AEval(module=mod, typed=True, max_steps=20000)
+                args = [m if 'ZoneMatch' in (pt_ or '') else tr for (_pn, pt_) in cf.params]
+                oc = ev.call_function(cf.name, args, chosen=CxxModule._Fn(cf))
+            except Raised as x_:
+                oc = 'raises %s' % x_.what
+            mk = lambda d_, f_: pev.apply(DT, [], dict(y=2001, M=3, d=d_, ss=7200, f=f_))
+            ptr = PObj(zs, 'Transition', {'transitionTime': mk(dw, 'w'), 'transitionTimeS': mk(ds, 's'), 'transitionTimeU': mk(du, 'u')})
+            pm = PObj(zs, 'ZoneMatch', {'startDateTime': mk(10, fs), 'untilDateTime': mk(20, fu)})
+            try:
+                vals = {'transition': ptr, 'match': pm}
+                if sorted(pf.params) != sorted(vals):
+                    raise AnalysisError('%s: parameters %s are not (transition, match)' % (pf.loc, pf.params))
+                pev.steps = 0
+                op = pev.call(zs, pf.name, [vals[x] for x in pf.params])
+            except PRaised as x_:
+                op = 'raises %s' % x_.what
+            n += 1
+            if oc != op:
+                diffs.append(('match [10th %s, 20th %s), transition at day %d (w) / %d (s) / %d (u)' % (fs, fu, dw, ds, du), oc, op))
+    R.instance('R1', c, cf.loc, '%d interpreted cases' % n)
+    if diffs:
+        d = diffs[0]
+        R.violation('R1', c, cf.loc, 'the two implementations differ when %s: C++ -> %s, Python -> %s' % (d[0], d[1], d[2]),
+                    detail=['%d differing cases of %d' % (len(diffs), n), 'Python side: %s' % pf.loc])
 
 
 # -- (f) expandDateTuple / _expand_date_tuple ------------------------------------------------------------------------------
@@ -1150,19 +1246,18 @@ def match_pair(R, lib, zs, sv):
 # -- look-up loops -------------------------------------------------------------------------------------------------------------
 
 def loop_rules(R, lib, zs):
-    from .rules_C07 import lookup_shape
-    for cname, pname, ckey, pkey in (('findTransition', 'ZoneSpecifier._find_transition_for_seconds', 'startEpochSeconds', 'startEpochSecond'),
-                                     ('findTransitionForDateTime', 'ZoneSpecifier._find_transition_for_datetime', 'startDateTime', 'startDateTime')):
-        cf = lib.fns('ace_time::extended::TransitionStorage::' + cname)[0]
-        pf = zs.fn(pname)
-        c = '%s~%s' % (cname, pname)
-        R.instance('R1-loop', c, cf.loc)
-        okc, whyc = lookup_shape(cf, ckey, fold_global=lib.global_value)
-        okp, whyp = lookup_shape(pf, pkey, lang='py')
-        if not okc:
-            R.violation('R1-loop', c, cf.loc, 'C++ side: ' + whyc)
-        elif not okp:
-            R.violation('R1-loop', c, pf.loc, 'Python side: ' + whyp)
+    """the two look-ups on both sides: interpreted on the same abstract pools (rules_C07.lookup_eval)"""
+    from .rules_C07 import lookup_eval
+    pnames = {'findTransition': 'ZoneSpecifier._find_transition_for_seconds', 'findTransitionForDateTime': 'ZoneSpecifier._find_transition_for_datetime'}
+    for cname, res in lookup_eval(R.cfg, lib).items():
+        cf, cbad, cn = res['c']
+        pf, pbad, pn = res['py']
+        c = '%s~%s' % (cname, pnames[cname])
+        R.instance('R1-loop', c, cf.loc, '%d + %d interpreted look-ups' % (cn, pn))
+        if cbad:
+            R.violation('R1-loop', c, cf.loc, 'C++ side: ' + cbad)
+        elif pbad:
+            R.violation('R1-loop', c, pf.loc, 'Python side: ' + pbad)
 
 
 # -- normal form ----------------------------------------------------------------------------------------------------------------
